@@ -8,11 +8,13 @@ import Darling.DeriveTypes
 
 namespace Derive
 
-/-- the local a field declaration introduces: `(bool, Option<T>)`, or the `Vec<T>` of a multiple field -/
+/-- the locals a field declaration introduces: `(bool, Option<T>)`, or the `Vec<T>` of a multiple
+    field together with the counter of the occurrences of its name -/
 structure Slot (ν : Type) where
   seen : Bool := false
   val : Option ν := none
   many : List ν := []
+  occ : Nat := 0
 
 structure PState (ν : Type) where
   slot : String → Slot ν := fun _ => {}
@@ -39,10 +41,10 @@ def stepItem (r : SStruct ν) (st : PState ν) (item : NestedMeta) : Except Stri
       | some f =>
           let s := st.slot f.ident
           if f.multiple then
-            let loc := f.name ++ "[" ++ toString s.many.length ++ "]"
+            let loc := f.name ++ "[" ++ toString s.occ ++ "]"
             match f.conv inner with
-            | .ok v => .ok (st.set f.ident { s with many := s.many ++ [v] })
-            | .err e => .ok (st.push ((e.withSpan inner.span).at loc))
+            | .ok v => .ok (st.set f.ident { s with many := s.many ++ [v], occ := s.occ + 1 })
+            | .err e => .ok ((st.set f.ident { s with occ := s.occ + 1 }).push ((e.withSpan inner.span).at loc))
             | .panic m => .error m
           else if !s.seen then
             match f.conv inner with
